@@ -251,7 +251,11 @@ class BaseInterpolatableCompiler(BaseCompiler):
             # 'layerName' is None for the default layer
             self.layerNames.append(source.layerName)
 
-        self.skipExportGlyphs = designSpaceDoc.lib.get("public.skipExportGlyphs", [])
+        # an explicit skipExportGlyphs argument takes precedence over the lib key
+        if self.skipExportGlyphs is None:
+            self.skipExportGlyphs = designSpaceDoc.lib.get(
+                "public.skipExportGlyphs", []
+            )
 
         if self.notdefGlyph is None:
             self.notdefGlyph = _notdefGlyphFallback(designSpaceDoc)
